@@ -1219,7 +1219,7 @@ func TestVerif_C19(t *testing.T) {
 
 		// ---- client level
 		cd := c19dims{reps: vrun.Pick(r, []int{0, 2}, []int{0, 1, 2}), vers: []int{7, 8}, nodes: fewNodes,
-			tls: vrun.Pick(r, [][2]int{{0, -1}, {1, 100}}, fullTLS), fmts: vrun.Pick(r, []int{0}, []int{0, 2})}
+			tls: vrun.Pick(r, [][2]int{{0, -1}, {1, 100}}, [][2]int{{0, -1}, {0, 100}, {1, 0}, {1, 100}}), fmts: []int{0}}
 		cl := c19layouts(vrun.Pick(r, 2, 3), !quick)
 		r.Bounds["client_layouts"] = len(cl)
 		m := 0
